@@ -102,7 +102,7 @@ func b64(s string) string { return base64.StdEncoding.EncodeToString([]byte(s)) 
 
 func genCreds(r *lib.RNG, c *conf) credCase {
 	right := "Basic " + b64(c.user+":"+c.pass)
-	switch r.Intn(18) {
+	switch r.Intn(20) {
 	case 0, 1, 2, 3, 4:
 		return credCase{name: "right", header: []string{right}, ok: true}
 	case 5:
@@ -137,6 +137,18 @@ func genCreds(r *lib.RNG, c *conf) credCase {
 		return credCase{name: "scheme-case", header: []string{lib.Pick(r, []string{"basic ", "BASIC ", "bAsIc "}) + b64(c.user+":"+c.pass)}, ok: true}
 	case 15:
 		return credCase{name: "right-twice", header: []string{right, right}, ok: true}
+	case 18, 19:
+		// the colon moved: user and password differ although their concatenation is the same
+		cat := c.user + c.pass
+		for try := 0; try < 8; try++ {
+			k := r.Intn(len(cat) + 1)
+			cand := cat[:k] + ":" + cat[k:]
+			u, pw, _ := strings.Cut(cand, ":")
+			if u != c.user || pw != c.pass {
+				return credCase{name: "colon-moved", header: []string{"Basic " + b64(cand)}}
+			}
+		}
+		return credCase{name: "wrong-user", header: []string{"Basic " + b64("x"+c.user+":"+c.pass)}}
 	case 16:
 		return credCase{name: "disagreeing-lines", header: []string{right, "Basic " + b64("x:y")}, unsure: true}
 	default:
@@ -431,7 +443,7 @@ func (q *reqSpec) raw(r *lib.RNG, scheme string) []byte {
 }
 
 func main() {
-	run := lib.Start("C04", "generated configurations (basic-auth on/off with passwords containing ':' '@' or empty; deny-domains include/exclude lists; proxy-localhost deny/allow; allow-time-frame off/covers now/excludes now; upstream proxy; MITM; generated hosts file with mixed-case and IPv6 loopback aliases) x generated requests (GET/POST/PUT/HEAD/DELETE/CONNECT, origin/absolute form, HTTP/1.0 and 1.1, 18 credential variants, denied names in any case, 13 loopback/unspecified literals, hosts aliases in any case, with/without port, several requests per keep-alive connection, inner requests of MITM'd tunnels); reference decision function + dial log + accept/byte ledgers of every scripted peer; distinct = (config controls, method, host class, credential variant, position, inner) signatures")
+	run := lib.Start("C04", "generated configurations (basic-auth on/off with passwords containing ':' '@' or empty; deny-domains include/exclude lists; proxy-localhost deny/allow; allow-time-frame off/covers now/excludes now; upstream proxy; MITM; generated hosts file with mixed-case and IPv6 loopback aliases) x generated requests (GET/POST/PUT/HEAD/DELETE/CONNECT, origin/absolute form, HTTP/1.0 and 1.1, 19 credential variants (incl. the colon moved inside user+password), denied names in any case, 13 loopback/unspecified literals, hosts aliases in any case, with/without port, several requests per keep-alive connection, inner requests of MITM'd tunnels); reference decision function + dial log + accept/byte ledgers of every scripted peer; distinct = (config controls, method, host class, credential variant, position, inner) signatures")
 	root := run.RNG()
 	// The whole process runs in a local zone with a non-whole-hour offset, chosen so that the
 	// local wall clock is a few minutes past the hour (no hour roll-over during the run) while
